@@ -28,7 +28,8 @@ PROP = {'lean_props': ['Comrak.Props.C11', 'Comrak.Props.C11C12Canon'],
                   '(harness/src/spk.rs classify); a failure that matches no listed construct is shrunk and re-classified on the minimal document'],
  'assumptions': ['documents are valid UTF-8 (Rust &str)', 'parser panics are C01\'s subject and are counted as skipped here']}
 
-TEXT = {'text': 'Proof + search. The range, nesting and sibling-order oracles are Lean definitions (Comrak/Sourcepos.lean) executed by the driver on '
+TEXT = {'text_added': "The generator also writes tabs where it wrote spaces in line prefixes (after `>`, as indentation), consistently over a document; a failure on a paragraph continuation line that carries its single container's prefix, or in a table whose lines share one prefix inside a single container, is not part of the listed tab class.",
+ 'text': 'Proof + search. The range, nesting and sibling-order oracles are Lean definitions (Comrak/Sourcepos.lean) executed by the driver on '
          'every node of the tree the real parser returns; Lean proves that the line table partitions the source (LF/CRLF/CR), that nesting is '
          'transitive and that ordered parents make their children ordered (so checking parent/child and adjacent siblings is enough), and models '
          'Spx::consume (bytes conserved, returned column inside the span it stops in, no assertion failure on exact queues), the end rule of '
